@@ -4,7 +4,7 @@ import shutil
 
 from vlib.core import write_cfg, count_lines, VERIF
 from props.C03 import (clone_dir, par_tlc, judge_trace, names_jobs, state_jobs, names_state_jobs, check_refuted,
-                       race_phase)
+                       race_phase, lazy_jobs, cold_phase)
 
 LEVEL = "model_checking"
 META = {
@@ -20,7 +20,7 @@ META = {
                   "20 digits, sign, junk, empty) are emitted by TLC with the verdict of the declarative grammar and replayed under >=3 "
                   "concretisations; the deciding oracle is netip.ParseAddr / netip.ParseAddrPort / ValidateHostname / "
                   "ValidateHostnameLabel on the same concrete string. TLC proves grammar == parser state machine on all enumerated "
-                  "strings. Seeded mutation-based inputs are re-judged by the TLA+ grammar. No hidden state: IPTextState.tla / NamesState.tla prove 'every call returns the grammar's verdict of its argument' for stateless and exact-memo designs and refute it for a memo shared between validators, a case-folding memo and an unsynchronised memo; the harness calls every validator twice per input, replays a sequential second pass over the shuffled inputs (both validators in both orders, interleaved with near-miss texts; accepted names followed and preceded by their U+212A/U+017F/case-flip look-alikes), each call judged by the reference parser, and runs goroutines under -race.",
+                  "strings. Seeded mutation-based inputs are re-judged by the TLA+ grammar. No hidden state: IPTextState.tla / NamesState.tla prove 'every call returns the grammar's verdict of its argument' for stateless and exact-memo designs and refute it for a memo shared between validators, a case-folding memo and an unsynchronised memo; the harness calls every validator twice per input, replays a sequential second pass over the shuffled inputs (both validators in both orders, interleaved with near-miss texts; accepted names followed and preceded by their U+212A/U+017F/case-flip look-alikes), each call judged by the reference parser, and runs goroutines under -race. Cold start: LazyInit.tla proves the obligation for eager / sync.Once / fill-then-publish tables and refutes a lazily built table that is published before it is filled; since that history needs the FIRST calls of a process to overlap, the harness starts fresh processes (48 quick / 400 thorough plain, 3 / 12 under -race) in which 8 goroutines released by one barrier make the very first calls of every validator, each on its own sampled generated inputs, judged against the reference / the grammar and the error shape.",
     "level_note": "Uniformity hypothesis: hex letters (either case) are interchangeable, as are non-grammar bytes; decimal digits are kept "
                   "literally at character level. Exhaustive only up to the stated bounds; netip and idna are trusted references.",
 }
@@ -78,13 +78,14 @@ def run(ctx):
     # designs, refuted for shared / case-folding / unsynchronised memos.
     sjobs = state_jobs(ctx, d, "IPTextState", "ip", {"none": True, "exact": True, "shared": False, "unsync": False},
                        {"Procs": "{1, 2}", "MaxCalls": 2})
-    sjobs += names_state_jobs(ctx, dn, q, "twins", kinds='{"ishost", "dom"}')
+    sjobs += names_state_jobs(ctx, dn, q, "twins", kinds='{"ishost", "dom"}') + lazy_jobs(ctx, dn, q, "twins")
     # longest first
     order = tok_jobs[:1] + list(reversed(char_jobs)) + jobs + njobs + tok_jobs[1:] + sjobs
     results = par_tlc(ctx, order, parallel=5)
     check_refuted(ctx, sjobs, results[len(order) - len(sjobs):])
 
     # ---- 3: replay ---------------------------------------------------------
+    cold_ip, cold_names = ctx.scratch / "cold_ip.ndjson", ctx.scratch / "cold_names.ndjson"
     total = {}
 
     def replay_all(js, mode, fname):
@@ -93,7 +94,7 @@ def run(ctx):
             vec = j["dir"] / fname
             nv += count_lines(vec)
             out = ctx.scratch / (j["label"] + ".res")
-            ctx.vh(["c02", mode, vec, out])
+            ctx.vh(["c02", mode, vec, out], env={"VERIF_COLD_OUT": str(cold_ip if mode != "replay-names" else cold_names)})
             s = ctx.collect(out)
             for k, v in s.items():
                 if isinstance(v, (int, float)):
@@ -129,7 +130,9 @@ def run(ctx):
     ctx.extra["trace_accepted"] = {"ip": s["accepted_ip"], "ipport": s["accepted_ipport"]}
     ctx.extra["history_inputs"] = total.get("history_inputs", 0)
 
-    # ---- 5: goroutines under the race detector ------------------------------
+    # ---- 5: cold start (fresh processes, first calls overlap), then goroutines under the race detector
+    cold_phase(ctx, "c02", [cold_names, cold_ip], q,
+               "IsValidIPString / IsValidIPPortString / IsValidHostname / IsValidHostnameLabel")
     race_phase(ctx, "c02", (6, 30) if q else (12, 300),
                "IsValidIPString / IsValidIPPortString / IsValidHostname / IsValidHostnameLabel")
 
